@@ -126,8 +126,8 @@ static void runC18(Case& c) {
   std::atomic<int> getters{0}, waitersOpen{0}, ranOnWaiter{0};
   std::atomic<int> functorTid{-1};
   {
+    Gate gate; // declared before the pool: outlives every gate task
     dispenso::ThreadPool pool((size_t)n);
-    Gate gate;
     if (gated)
       gate.close(pool, n);
     {
@@ -284,8 +284,8 @@ static void runC19(Case& c) {
   bool gated = c.p.i("gated") != 0;
   std::atomic<int> overlapSeen{0};
   {
+    Gate gate; // declared before the pool: outlives every gate task
     dispenso::ThreadPool pool((size_t)n);
-    Gate gate;
     // gated pools would starve antecedents that nobody waits on: only for the chain form, where the
     // final get() pulls every link inline
     gated = gated && form == 0 && sched == 0;
@@ -508,8 +508,8 @@ static void runC20(Case& c) {
   } else {
     bool deferred = c.p.i("deferred") != 0, async = c.p.i("async") != 0, viaAsync = c.p.i("viaAsync") != 0;
     int mainTid = dsched_tid();
+    Gate gate; // declared before the pool: outlives every gate task
     dispenso::ThreadPool pool(1);
-    Gate gate;
     gate.close(pool, 1); // the only worker is busy until `notifyAt`: before that only the waiter could run the functor
     std::thread opener([&]() {
       if (notifyAt >= 0)
